@@ -360,6 +360,7 @@ async fn workload(mut sim: Sim, o: Opts) -> Result<Value, String> {
     let mut rng = StdRng::seed_from_u64(sim.rng.gen());
     let mut handles = Vec::new();
     let mut abandoned = 0;
+    let mut long_calls = [0usize; 2];
     for k in 0..o.calls {
         let nonce = sim.nonce();
         let (from, to) = if rng.gen_bool(0.8) {
@@ -416,12 +417,21 @@ async fn workload(mut sim: Sim, o: Opts) -> Result<Value, String> {
                     3 => call.abandon_at = Some("rpc.finish"),
                     4..=5 => call.abandon_after = Some(rng.gen_range(0..150)),
                     6 => {
+                        let f = rng.gen_range(0..2);
+                        if long_calls[f] >= 3 {
+                            call.must_succeed = true;
+                        } else {
                         // a handler that has been at it for a long time when its caller gives up
-                        // (served by the node without a concurrency limit: it must not hold up the others)
+                        // (served by the node without a concurrency limit: it must not hold up the others;
+                        // at most three per caller, or they would hold every one of the eight streams the
+                        // callee allows and an ordinary call to it would rightly run into its own deadline
+                        // waiting for one - thorough-tier false alarm, seeds 158 and 177)
                         req.headers_mut().insert("delay-ms".into(), "90000".into());
                         call.abandon_after = Some([31_000u64, 45_000, 62_000][rng.gen_range(0..3)]);
                         call.to = 2;
-                        call.from = rng.gen_range(0..2);
+                        call.from = f;
+                        long_calls[f] += 1;
+                        }
                     }
                     7 => {
                         // abandoned while a multi-megabyte response is on its way back
@@ -434,6 +444,10 @@ async fn workload(mut sim: Sim, o: Opts) -> Result<Value, String> {
                 }
                 // a deadline of its own does not keep an abandoned call's handler alive
                 match rng.gen_range(0..5) {
+                    // (on a network that loses a tenth of its datagrams a few hundred kilobytes each way
+                    // behind eight shared streams can take 20 s: a call that has to succeed there gets the
+                    // longer deadline - thorough-tier false alarm, seed 236)
+                    0 if o.faults && call.must_succeed => req.set_timeout(Duration::from_secs(120)),
                     0 => req.set_timeout(Duration::from_secs(20)),
                     1 => req.set_timeout(Duration::from_secs(120)),
                     _ => {}
